@@ -38,6 +38,7 @@ type Unit struct {
 	volatile        map[*types.Var]bool
 	loopOrd         int
 	localAlign      map[int]int
+	counted         map[string]int // callee texts named by called(...) in this unit's contract -> ghost counter id
 	forIdxVars      map[int]*types.Var // loop ordinal -> counter of a `for i := 0; cond; i++` loop (stands in for rangeidxN)
 	loopExec        []int              // static source index of the loop statement per executed loop (-1: a loop of an inlined callee)
 	loopStatic      []ast.Stmt
@@ -339,6 +340,9 @@ func (u *Unit) heapWrite(st *State, h string, newVal string) {
 }
 
 func (u *Unit) havocHeap(st *State, h string) {
+	if h == "HG_called" {
+		return // this activation's own call counters: no callee can change them
+	}
 	if strings.HasPrefix(h, "HMp_") || strings.HasPrefix(h, "HMv_") {
 		// the length-sum ghost of maps of this type is forgotten with them
 		if hl := "HL_" + h[4:]; u.c.heapNames[hl] != "" {
